@@ -27,6 +27,15 @@ type gtype struct {
 func named(n string) *gtype     { return &gtype{kind: 'n', name: n} }
 func listOf(t *gtype) *gtype    { return &gtype{kind: 'l', of: t} }
 func nonNull(t *gtype) *gtype   { return &gtype{kind: 'N', of: t} }
+func (t *gtype) wrappers() int {
+	n := 0
+	for t.kind != 'n' {
+		n++
+		t = t.of
+	}
+	return n
+}
+
 func (t *gtype) unwrap() string {
 	for t.kind != 'n' {
 		t = t.of
@@ -243,6 +252,18 @@ func genSchema(r *rng.R) *schemaDef {
 				t = nonNull(t)
 			}
 			depth++
+		}
+		// rarely: a wrapper chain as deep as the introspection query's TypeRef fragment reaches
+		// (7 wrappers: must still load) or deeper (8, 9: LoadSchema sees a wrapper without ofType)
+		if r.Chance(1, 100) {
+			target := []int{7, 7, 8, 9}[r.Intn(4)]
+			for t.wrappers() < target {
+				if t.kind != 'N' && r.Bool() {
+					t = nonNull(t)
+				} else {
+					t = listOf(t)
+				}
+			}
 		}
 		return t
 	}
